@@ -450,12 +450,16 @@ func TestC04Untyped(t *testing.T) {
 	if hx.Replaying() {
 		t.Skip()
 	}
+	defer startWatchdog(rec)()
 	rapid.Check(t, func(rt *rapid.T) {
 		v, desc := genAny(rt, 0)
 		shape := rapid.SampledFrom(append(append([]string(nil), c04Shapes...), "ReadInterface", "Skip", "ReadMap+Skip", "ReadArray+Skip", "RawRecord", "ReadRecord+ReadRawBytes")).Draw(rt, "shape")
 		rec.Case("untyped", "shape_kind="+strings.SplitN(desc, "{", 2)[0])
 		rec.NonTrivial("untyped", shape+"|"+desc, func() any { return anyCase{desc, shape} })
+		c04Current.Store(c04Case{Entry: "any", Shape: shape, Input: desc})
+		c04InFlight.Store(true)
 		p, pv, st := hx.Try(func() {
+			defer func() { c04InFlight.Store(false); c04Ticks.Add(1) }()
 			r := restlicodec.NewInterfaceReader(v)
 			if ty := typeOrNil(shape); ty != nil {
 				_, _ = dyn.Unmarshal(S, *ty, r)
